@@ -110,13 +110,13 @@ def parseStim (d : EonD) (ws : List String) : Option (Stim × EonD) :=
   | ["nrebirth"] => some (.nrebirth, d)
   | ["pub", "node", mode, n] =>
     match parsePubMode mode, (n.drop 2).toString.toNat? with
-    | some t, some k => some (.pub (d.users + 1) .node t k, { d with users := d.users + 1 })
+    | some t, some k => some (.pub d.users .node t k, { d with users := d.users + 1 })
     | _, _ => none
   | ["pub", "dev", dv, mode, n] =>
     match dv.toNat?, parsePubMode mode, (n.drop 2).toString.toNat? with
-    | some x, some t, some k => some (.pub (d.users + 1) (.dev x) t k, { d with users := d.users + 1 })
+    | some x, some t, some k => some (.pub d.users (.dev x) t k, { d with users := d.users + 1 })
     | _, _, _ => none
-  | ["cancel"] => some (.cancel (d.users + 1), { d with users := d.users + 1 })
+  | ["cancel"] => some (.cancel d.users, { d with users := d.users + 1 })
   | ["resolve", id, r] => id.toNat?.map fun n => (.resolve n (r = "ok"), d)
   | ["adv", ms] => ms.toNat?.map fun n => (.advance n, d)
   | ["cbpark", "node"] => some (.cbPark .node true, d)
@@ -147,22 +147,35 @@ def stepEon (d : EonD) (ws : List String) : EonD × String :=
     | (none, b) =>
       ({ d with st := s },
         (if b = 0 then "budget-exhausted" else "rejected") ++ " model-enabled=[" ++ joinWith "," (enabledObs s) ++ "]")
+  -- the harness answers `U:err:NoDevice` / `U:err:Duplicate` / … itself when it has no handle for
+  -- the device (nothing of srad is called then)
+  let harnessRefused := (match obsW with
+    | [] => false
+    | l => ((joinWith " " l).splitOn ";").any (fun t => t.startsWith "U:err:"))
+  let tick (s : St) : St := { s with wall := s.wall + 1 }        -- every line costs 1 ms (barrier)
   match req with
   | "new" :: rest =>
     match (rest.findSome? fun w => if w.startsWith "cd=" then (w.drop 3).toString.toNat? else none) with
-    | some cd => run (Eon.init cd) { st := Eon.init cd, users := 0 }
+    | some cd =>
+      let s0 : St := { Eon.init cd with wall := 1000000 }
+      let (d', o) := run s0 { st := s0, users := 0 }
+      ({ d' with st := tick d'.st }, o)
     | none => (d, "bad-op")
   | "stim" :: rest =>
-    match parseStim d rest with
-    | some (.reg _, _) | some (.unreg _, _) | some (.enable _, _) | some (.disable _, _) | some (.drebirth _, _) =>
-      -- the harness answers `U:err:NoDevice` / `U:err:Duplicate` itself when the device does not exist
+    if harnessRefused then
+      let (d', o) := run d.st d
+      ({ d' with st := tick d'.st }, o)
+    else
       match parseStim d rest with
-      | some (stim, d') => let (s, _) := applyStim d.st stim; run s d'
-      | none => (d, "bad-op")
-    | some (stim, d') =>
-      let (s, _) := applyStim d.st stim
-      run s d'
-    | none => if rest.head? = some "rule" then run d.st d else (d, "bad-op")
+      | some (stim, d') =>
+        let (s, _) := applyStim d.st stim
+        let (d'', o) := run s d'
+        ({ d'' with st := tick d''.st }, o)
+      | none =>
+        if rest.head? = some "rule" then
+          let (d', o) := run d.st d
+          ({ d' with st := tick d'.st }, o)
+        else (d, "bad-op")
   | _ => (d, "bad-op")
 
 end Srad.Drv
